@@ -616,7 +616,19 @@ func runHist(in input) lib.Case {
 		fmt.Fprintln(os.Stderr, "mkWorld", time.Since(t00))
 		defer func() { fmt.Fprintln(os.Stderr, "case total", time.Since(t00)) }()
 	}
-	defer w.close()
+	defer func() {
+		if w.stuck == "" {
+			w.close()
+			return
+		}
+		// a wedged server may never finish closing; the child process ends after this case
+		done := make(chan struct{})
+		go func() { w.close(); close(done) }()
+		select {
+		case <-done:
+		case <-time.After(3 * time.Second):
+		}
+	}()
 	var ops, snaps, trace []string
 	peer := false
 	tags := map[string]bool{}
